@@ -38,11 +38,25 @@ func init() {
 				n = 6000
 			}
 			return []modeSpec{
+				{name: "storm", n: 16, perChild: 1, timeout: 30 * time.Minute},
 				{name: "req", n: n, perChild: n / 16, timeout: 30 * time.Minute},
 				{name: "req-chaos", n: n, perChild: n / 16, timeout: 30 * time.Minute, env: []string{"VERIF_HOOK=chaos", "VERIF_HOOK_PROB=30", "VERIF_HOOK_MAXUS=50"}},
 			}
 		},
-		run:         c11Run,
+		run: func(c *caseCtx) caseResult {
+			if c.mode == "storm" {
+				return c11Storm(c)
+			}
+			return c11Run(c)
+		},
+		post: func(a *aggregate) {
+			// random 31-bit ids of at most a few dozen simultaneously outstanding requests collide with
+			// probability ~1e-7 per round: two or more collisions in one run are not chance
+			if n := a.counters["response_id_collisions"]; n >= 2 {
+				a.violations = append(a.violations, caseResult{Verdict: vViolated, Case: -1, Mode: "storm",
+					Detail: fmt.Sprintf("response ids of concurrently outstanding requests collided %d times in this run (ActorDuplicateIdEvent for response/...): concurrent requests are not kept apart", n)})
+			}
+		},
 		minDistinct: 30,
 	})
 }
@@ -282,5 +296,81 @@ func c11Run(c *caseCtx) (res caseResult) {
 	for _, p := range rpids {
 		e.Poison(p)
 	}
+	return res
+}
+
+
+// c11Storm: many goroutines issue echo requests at the same time; the creation of
+// the response processes races.
+func c11Storm(c *caseCtx) (res caseResult) {
+	r := c.rng
+	wd := watchdog(c.tier)
+	e, mon, _, err := newMonitoredEngine()
+	if err != nil {
+		res.inconclusive("engine: %v", err)
+		return
+	}
+	nG := 16 + r.Intn(48)
+	per := 300 + r.Intn(500)
+	rsp := e.SpawnFunc(func(c *actor.Context) {
+		if m, ok := c.Message().(*reqMsg); ok {
+			c.Respond(&replyMsg{ForID: m.ID, Nth: 1})
+		}
+	}, "echo", actor.WithID("0"))
+	var wg sync.WaitGroup
+	var wrong, errs int64
+	var firstWrong atomic.Value
+	startCh := make(chan struct{})
+	for g := 0; g < nG; g++ {
+		g := g
+		wg.Add(1)
+		go func() {
+			defer wg.Done()
+			<-startCh
+			for i := 0; i < per; i++ {
+				id := g*1000000 + i
+				v, err := e.Request(rsp, &reqMsg{ID: id, Bh: bhImmediate}, 20*time.Second).Result()
+				if err != nil {
+					atomic.AddInt64(&errs, 1)
+					continue
+				}
+				if rp, ok := v.(*replyMsg); !ok || rp.ForID != id {
+					atomic.AddInt64(&wrong, 1)
+					firstWrong.Store(fmt.Sprintf("request %d received %v", id, v))
+				}
+			}
+		}()
+	}
+	close(startCh)
+	done := make(chan struct{})
+	go func() { wg.Wait(); close(done) }()
+	res.Desc = fmt.Sprintf("storm goroutines=%d requests each=%d", nG, per)
+	select {
+	case <-done:
+	case <-time.After(wd + 60*time.Second):
+		res.inconclusive("request storm did not finish (%s)", res.Desc)
+		return
+	}
+	mon.flush(e, wd)
+	coll := mon.count(func(x any) bool {
+		ev, ok := x.(actor.ActorDuplicateIdEvent)
+		return ok && strings.HasPrefix(ev.PID.ID, "response/")
+	})
+	res.count("response_id_collisions", int64(coll))
+	res.count("storm_requests", int64(nG*per))
+	if coll == 0 {
+		// (with a collision the replies of the two requests legitimately cross: classified by the run-level rule)
+		if w := atomic.LoadInt64(&wrong); w > 0 {
+			res.violate("%d requests received the reply to another request, e.g. %v", w, firstWrong.Load())
+		}
+		if n := atomic.LoadInt64(&errs); n > 0 {
+			res.violate("%d echo requests timed out although the responder replies at once", n)
+		}
+	}
+	res.Sig = sigHash("storm", nG/8, per/100)
+	if c.n < 1 || res.Verdict == vViolated {
+		res.Sample = map[string]any{"scenario": res.Desc, "response_id_collisions": coll}
+	}
+	e.Poison(rsp)
 	return res
 }
